@@ -238,6 +238,8 @@ impl Cfg {
             }
         }
 
+        #[cfg(feature = "rva_verif")]
+        crate::verif::register_nodes(&nodes);
         Ok(Cfg {
             nodes,
             label_function_map: HashMap::new(),
